@@ -1,8 +1,7 @@
 import Driver.Util
 import ReplicatModel.Options
 open Lean Replicat Replicat.Gen Replicat.Options
-namespace Driver
-
+namespace Driver.HOptions
 /-! requests `options.*` (DESIGN.md Appendix A): the model of `main()`'s option pipeline for one option row.
 Values are whatever JSON the harness uses for Python values (`{"t": "str", "v": …}`); what the leaf functions
 (`guess_type`, `parse_repository`, …) return on them is supplied in the request (`co`: computed by the REAL functions
@@ -136,4 +135,6 @@ def handleOptions (op : String) (j : Json) : Except String Json := do
     | _, _ => throw "unknown flag"
   | _ => throw s!"unknown op {op}"
 
-end Driver
+end Driver.HOptions
+
+def Driver.handleOptions := Driver.HOptions.handleOptions
